@@ -39,7 +39,7 @@ THEOREMS = [
 LEAN_MODULES = ["PorepyVerif.C01.Props"]
 AUDIT = "PorepyVerif/C01/Audit.lean"
 DRIVER = "PorepyVerif/C01/Driver.lean"
-N = {"quick": 300, "thorough": 9000}
+N = {"quick": 300, "thorough": 12000}
 RULE = ("random AD program trees of depth 1-5 over 1-4 variables from initAdArrays (sizes 1-6): every overload "
         "(+ - * / ** and the reflected forms) with python scalars (int and float), numpy arrays (int and float dtype), other "
         "AdArrays (including the same object on both sides), sparse matrices on the left (csr/csc, empty rows), row slicing "
@@ -181,6 +181,8 @@ def np_eval(t, X):
             c = a if t["b"] == "same" else np_eval(t["b"], X)
             if c.size != a.size:
                 raise ValueError("size")
+            if t["op"] == "rmul":
+                raise RuntimeError("AdArray.__rmul__(AdArray) is not reachable through `*` and refuses to answer")
         else:
             if t["op"] != "rmatmul":
                 raise ValueError("sparse operand")
@@ -389,6 +391,18 @@ def _complex_step(tree, X, h=1e-30):
     return np.array(cols).T if cols else np.zeros((0, n))
 
 
+def _central(tree, X, hh):
+    cols = []
+    for vi, x in enumerate(X):
+        for j in range(x.size):
+            Xp = [v.copy() for v in X]
+            Xm = [v.copy() for v in X]
+            Xp[vi][j] += hh
+            Xm[vi][j] -= hh
+            cols.append((np_eval(tree, Xp) - np_eval(tree, Xm)) / (2 * hh))
+    return np.array(cols).T
+
+
 def _richardson(tree, X, h=2e-4):
     def cd(hh):
         cols = []
@@ -460,12 +474,20 @@ def _check(tree, case, jac_check=True):
         if bad.any():
             i = tuple(int(x) for x in np.argwhere(bad)[0])
             return (f"Jacobian entry {i} is {J[i]!r}, the derivative (complex step) is {Jc[i]!r}", "jac")
-        Jr = _richardson(tree, X)
-        if np.all(np.isfinite(Jr)):
-            bad = np.abs(J - Jr) > 1e-4 * scale * (1 + np.max(np.abs(want)))
-            if bad.any():
-                i = tuple(int(x) for x in np.argwhere(bad)[0])
-                return (f"Jacobian entry {i} is {J[i]!r}, central differences give {Jr[i]!r}", "jac-fd")
+        # second opinion by real finite differences.  A step can cross a kink of abs / maximum / heaviside although the point
+        # itself is at a safe distance (large gradients), so a disagreement only counts if smaller steps confirm it.
+        fmag = 1 + np.max(np.abs(want))
+        worst = None
+        for fd, tol in ((lambda: _richardson(tree, X), 1e-4), (lambda: _central(tree, X, 1e-7), 1e-3), (lambda: _central(tree, X, 1e-9), 3e-2)):
+            Jr = fd()
+            if not np.all(np.isfinite(Jr)):
+                return None
+            bad = np.abs(J - Jr) > tol * scale * fmag
+            if not bad.any():
+                return None
+            i = tuple(int(x) for x in np.argwhere(bad)[0])
+            worst = worst or (f"Jacobian entry {i} is {J[i]!r}, finite differences give {Jr[i]!r} (confirmed with steps 1e-7 and 1e-9)", "jac-fd")
+        return worst
     return None
 
 
@@ -489,6 +511,10 @@ def oracle(case):
             return {"what": f"an illegal operand combination did not raise {exp_err}: got {out.get('err', 'a result')}", "key": "no-" + exp_err}
         return None
     if case.get("kind") == "error":
+        for sub in _subtrees_postorder(tree):  # the legal sub-expressions must still be right
+            r = _check(sub, case, False)
+            if r is not None:
+                return {"what": f"{_node_name(sub)}: {r[0]}", "key": f"{r[1]}:{_node_name(sub)}"}
         return None
     jac_check = case.get("kind") != "kink"
     top = _check(tree, case, jac_check)
@@ -812,7 +838,11 @@ def _gen_kink(rng, tier):
         a = g.tree(rng.randint(0, 2), size)
         z = {"k": "op", "op": "sub", "kind": "Ad", "b": "same", "a": a}
         if mode == "tie":  # a constant array equal to the values: the code takes the Jacobian of the FIRST argument
+            # (only operations that are exact in binary64, so that both sides see the very same tie)
+            a = {"k": "op", "op": "mul", "kind": "S", "c": rng.choice(["2", "-1/2", "1"]), "a": {"k": "var", "i": g.new_var(size)}}
             t = {"k": rng.choice(["maxR", "maxL"]), "a": a, "c": [frac(x) for x in g.val(a)]}
+            if rng.random() < 0.5:
+                t = {"k": "fn", "f": "sin", "p": [], "a": t}
         elif mode == "abs0":
             t = {"k": "fn", "f": "abs", "p": [], "a": z}
         elif mode == "heav0":
@@ -937,4 +967,3 @@ def stats(cases, impl_outs):
             "rules_never_exercised": sorted(set((_TR.get("arith") or []) + (_TR.get("lib") or [])) - {n.split(".", 1)[1] for n in nodes if "." in n})}
 
 
-DISABLED = True
